@@ -114,7 +114,9 @@ def coverage_for(key):
     if f.endswith("package/src/lock.rs"):
         return unproved("serialisation / I-O of the lock file, not modelled")
     if f.endswith("eval/merge.rs"):
-        return unproved("merge_fields: unreachable!() arm and fields_merge_closurize(..).unwrap(); coq/Merge models the data algebra, not this dispatch (DESIGN §4 C10 lists it as planned)")
+        if ":unreachable#" in key:
+            return thm("no_panic_select_value", "the last arm of the match on (value1, value2) and the priorities: == and > are the hand-written PartialEq / Ord instances of MergePriority, which agree (prio_eq_cmp) and are antisymmetric, so one of the guarded arms always fires")
+        return unproved("fields_merge_closurize(..).unwrap(): its error comes from field_deps / saturate on the cache; coq/Merge models the data algebra, not the cache")
     if f.endswith("eval/contract_eq.rs"):
         return delegated("C04", "C04_contract_eq_sound", "coq/Merge/CtrEq.v")
     return unproved("not modelled")
@@ -143,7 +145,7 @@ From Coq Require Import List String Bool ZArith QArith.
 Import ListNotations.
 From NV Require Import Crash.Outcome Crash.NumOps Crash.NumOpsProofs Crash.Index Crash.IndexProofs
   Crash.Lexer Crash.LexerProofs Crash.Span Crash.SpanProofs Crash.NameReg Crash.NameRegProofs
-  Crash.Defects Gen.PanicSites.
+  Crash.Defects Crash.MergeDispatch Crash.MergeDispatchProofs Gen.PanicSites.
 Open Scope string_scope.
 
 Inductive coverage : Type :=
